@@ -1,75 +1,329 @@
-//! Contract stub of std::collections::{HashMap, HashSet}: dense-prefix fixed arrays (no heap growth).
+//! Contract stub of std::collections::{HashMap, HashSet} (assumed contract: a finite map / set, provided the
+//! key's Borrow/Eq are coherent — that proviso is obligation C01.K5). Dense prefix of a fixed array of
+//! `MaybeUninit` slots + explicit length: no heap growth, no hashing, no `Option` discriminants (a niche check on
+//! `Option<(OwnedKey, CacheEntry)>` made every slot write cost CBMC ~10 s because it could not rule out the drop of
+//! the old `Box<dyn Any>`). Look-ups go through `Borrow<Q>` + `Eq` only.
 #![allow(dead_code)]
 use std::borrow::Borrow;
 use std::marker::PhantomData;
+use std::mem::MaybeUninit;
 pub const CAP: usize = 4;
 
-pub struct HashMap<K, V, S = ()> { slots: [Option<(K, V)>; CAP], len: usize, _s: PhantomData<S> }
+pub struct HashMap<K, V, S = ()> {
+    slots: [MaybeUninit<(K, V)>; CAP],
+    len: usize,
+    _s: PhantomData<S>,
+}
 
 impl<K, V, S> HashMap<K, V, S> {
-    pub fn with_hasher(_s: S) -> Self { HashMap { slots: [None, None, None, None], len: 0, _s: PhantomData } }
-    pub fn with_capacity_and_hasher(_c: usize, _s: S) -> Self { Self::with_hasher(_s) }
-    pub fn len(&self) -> usize { self.len }
-    pub fn is_empty(&self) -> bool { self.len == 0 }
-    pub fn clear(&mut self) { while self.len > 0 { self.len -= 1; self.slots[self.len] = None; } }
-    pub fn iter(&self) -> Iter<'_, K, V> { Iter { m: &self.slots, i: 0, n: self.len } }
-    fn push(&mut self, k: K, v: V) -> usize { assert!(self.len < CAP, "VMap capacity bound exceeded"); let i = self.len; self.slots[i] = Some((k, v)); self.len += 1; i }
-    fn take_at(&mut self, i: usize) -> (K, V) { self.len -= 1; let last = self.slots[self.len].take(); if i == self.len { match last { Some(p) => p, None => unreachable!() } } else { match std::mem::replace(&mut self.slots[i], last) { Some(p) => p, None => unreachable!() } } }
+    pub fn with_hasher(_s: S) -> Self {
+        HashMap { slots: [MaybeUninit::uninit(), MaybeUninit::uninit(), MaybeUninit::uninit(), MaybeUninit::uninit()], len: 0, _s: PhantomData }
+    }
+    pub fn with_capacity_and_hasher(_c: usize, s: S) -> Self {
+        Self::with_hasher(s)
+    }
+    pub fn len(&self) -> usize {
+        self.len
+    }
+    pub fn is_empty(&self) -> bool {
+        self.len == 0
+    }
+    pub fn clear(&mut self) {
+        while self.len > 0 {
+            self.len -= 1;
+            unsafe { self.slots[self.len].assume_init_drop() };
+        }
+    }
+    pub fn iter(&self) -> Iter<'_, K, V> {
+        Iter { m: &self.slots, i: 0, n: self.len }
+    }
+    fn at(&self, i: usize) -> &(K, V) {
+        unsafe { self.slots[i].assume_init_ref() }
+    }
+    fn at_mut(&mut self, i: usize) -> &mut (K, V) {
+        unsafe { self.slots[i].assume_init_mut() }
+    }
+    fn push(&mut self, k: K, v: V) -> usize {
+        assert!(self.len < CAP, "VMap capacity bound exceeded");
+        let i = self.len;
+        self.slots[i].write((k, v));
+        self.len += 1;
+        i
+    }
+    fn take_at(&mut self, i: usize) -> (K, V) {
+        self.len -= 1;
+        let last = self.len;
+        unsafe {
+            let out = self.slots[i].assume_init_read();
+            if i != last {
+                let moved = self.slots[last].assume_init_read();
+                self.slots[i].write(moved);
+            }
+            out
+        }
+    }
 }
-pub struct Iter<'a, K, V> { m: &'a [Option<(K, V)>; CAP], i: usize, n: usize }
-impl<'a, K, V> Iterator for Iter<'a, K, V> { type Item = (&'a K, &'a V); fn next(&mut self) -> Option<Self::Item> { if self.i < self.n { let r = match &self.m[self.i] { Some((k, v)) => Some((k, v)), None => None }; self.i += 1; r } else { None } } }
-impl<K, V> HashMap<K, V, ()> { pub fn new() -> Self { Self::with_hasher(()) } }
+impl<K, V, S> Drop for HashMap<K, V, S> {
+    fn drop(&mut self) {
+        self.clear();
+    }
+}
+pub struct Iter<'a, K, V> {
+    m: &'a [MaybeUninit<(K, V)>; CAP],
+    i: usize,
+    n: usize,
+}
+impl<'a, K, V> Iterator for Iter<'a, K, V> {
+    type Item = (&'a K, &'a V);
+    fn next(&mut self) -> Option<Self::Item> {
+        if self.i < self.n {
+            let p = unsafe { self.m[self.i].assume_init_ref() };
+            self.i += 1;
+            Some((&p.0, &p.1))
+        } else {
+            None
+        }
+    }
+}
+impl<K, V> HashMap<K, V, ()> {
+    pub fn new() -> Self {
+        Self::with_hasher(())
+    }
+}
 
 impl<K: Eq, V, S> HashMap<K, V, S> {
-    fn pos<Q: ?Sized + Eq>(&self, k: &Q) -> Option<usize> where K: Borrow<Q> {
+    fn pos<Q: ?Sized + Eq>(&self, k: &Q) -> Option<usize>
+    where
+        K: Borrow<Q>,
+    {
         let mut i = 0;
-        while i < self.len { if let Some((kk, _)) = &self.slots[i] { if kk.borrow() == k { return Some(i); } } i += 1; }
+        while i < self.len {
+            if self.at(i).0.borrow() == k {
+                return Some(i);
+            }
+            i += 1;
+        }
         None
     }
-    pub fn get<Q: ?Sized + Eq>(&self, k: &Q) -> Option<&V> where K: Borrow<Q> { let i = self.pos(k)?; self.slots[i].as_ref().map(|p| &p.1) }
-    pub fn get_mut<Q: ?Sized + Eq>(&mut self, k: &Q) -> Option<&mut V> where K: Borrow<Q> { let i = self.pos(k)?; self.slots[i].as_mut().map(|p| &mut p.1) }
-    pub fn contains_key<Q: ?Sized + Eq>(&self, k: &Q) -> bool where K: Borrow<Q> { self.pos(k).is_some() }
-    pub fn remove<Q: ?Sized + Eq>(&mut self, k: &Q) -> Option<V> where K: Borrow<Q> { let i = self.pos(k)?; Some(self.take_at(i).1) }
+    pub fn get<Q: ?Sized + Eq>(&self, k: &Q) -> Option<&V>
+    where
+        K: Borrow<Q>,
+    {
+        let i = self.pos(k)?;
+        Some(&self.at(i).1)
+    }
+    pub fn get_mut<Q: ?Sized + Eq>(&mut self, k: &Q) -> Option<&mut V>
+    where
+        K: Borrow<Q>,
+    {
+        let i = self.pos(k)?;
+        Some(&mut self.at_mut(i).1)
+    }
+    pub fn contains_key<Q: ?Sized + Eq>(&self, k: &Q) -> bool
+    where
+        K: Borrow<Q>,
+    {
+        self.pos(k).is_some()
+    }
+    pub fn remove<Q: ?Sized + Eq>(&mut self, k: &Q) -> Option<V>
+    where
+        K: Borrow<Q>,
+    {
+        let i = self.pos(k)?;
+        Some(self.take_at(i).1)
+    }
     pub fn insert(&mut self, k: K, v: V) -> Option<V> {
-        match self.pos(&k) { Some(i) => self.slots[i].as_mut().map(|p| std::mem::replace(&mut p.1, v)), None => { self.push(k, v); None } }
+        match self.pos(&k) {
+            Some(i) => Some(std::mem::replace(&mut self.at_mut(i).1, v)),
+            None => {
+                self.push(k, v);
+                None
+            }
+        }
     }
     pub fn entry(&mut self, k: K) -> Entry<'_, K, V, S> {
-        match self.pos(&k) { Some(i) => Entry::Occupied(OccupiedEntry { slot: &mut self.slots[i] }), None => Entry::Vacant(VacantEntry { map: self, key: k }) }
+        match self.pos(&k) {
+            Some(i) => Entry::Occupied(OccupiedEntry { map: self, i, _key: k }),
+            None => Entry::Vacant(VacantEntry { map: self, key: k }),
+        }
     }
 }
-pub enum Entry<'a, K, V, S = ()> { Occupied(OccupiedEntry<'a, K, V>), Vacant(VacantEntry<'a, K, V, S>) }
-pub struct OccupiedEntry<'a, K, V> { slot: &'a mut Option<(K, V)> }
-pub struct VacantEntry<'a, K, V, S> { map: &'a mut HashMap<K, V, S>, key: K }
-impl<'a, K, V> OccupiedEntry<'a, K, V> { pub fn into_mut(self) -> &'a mut V { match self.slot { Some(p) => &mut p.1, None => unreachable!() } } }
-impl<'a, K, V, S> VacantEntry<'a, K, V, S> { pub fn insert(self, v: V) -> &'a mut V { let i = self.map.push(self.key, v); match &mut self.map.slots[i] { Some(p) => &mut p.1, None => unreachable!() } } }
-impl<'a, K, V, S> Entry<'a, K, V, S> {
-    pub fn or_insert(self, v: V) -> &'a mut V { match self { Entry::Occupied(o) => o.into_mut(), Entry::Vacant(e) => e.insert(v) } }
-    pub fn or_default(self) -> &'a mut V where V: Default { match self { Entry::Occupied(o) => o.into_mut(), Entry::Vacant(e) => e.insert(V::default()) } }
+pub enum Entry<'a, K, V, S = ()> {
+    Occupied(OccupiedEntry<'a, K, V, S>),
+    Vacant(VacantEntry<'a, K, V, S>),
 }
-impl<K, V, S> std::fmt::Debug for HashMap<K, V, S> { fn fmt(&self, f: &mut std::fmt::Formatter<'_>) -> std::fmt::Result { f.write_str("VMap") } }
-impl<'a, K, V, S> IntoIterator for &'a HashMap<K, V, S> { type Item = (&'a K, &'a V); type IntoIter = Iter<'a, K, V>; fn into_iter(self) -> Iter<'a, K, V> { self.iter() } }
+pub struct OccupiedEntry<'a, K, V, S> {
+    map: &'a mut HashMap<K, V, S>,
+    i: usize,
+    _key: K,
+}
+pub struct VacantEntry<'a, K, V, S> {
+    map: &'a mut HashMap<K, V, S>,
+    key: K,
+}
+impl<'a, K, V, S> OccupiedEntry<'a, K, V, S> {
+    pub fn into_mut(self) -> &'a mut V {
+        &mut self.map.at_mut(self.i).1
+    }
+}
+impl<'a, K, V, S> VacantEntry<'a, K, V, S> {
+    pub fn insert(self, v: V) -> &'a mut V {
+        let i = self.map.push(self.key, v);
+        &mut self.map.at_mut(i).1
+    }
+}
+impl<'a, K, V, S> Entry<'a, K, V, S> {
+    pub fn or_insert(self, v: V) -> &'a mut V {
+        match self {
+            Entry::Occupied(o) => o.into_mut(),
+            Entry::Vacant(e) => e.insert(v),
+        }
+    }
+    pub fn or_default(self) -> &'a mut V
+    where
+        V: Default,
+    {
+        match self {
+            Entry::Occupied(o) => o.into_mut(),
+            Entry::Vacant(e) => e.insert(V::default()),
+        }
+    }
+}
+impl<K, V, S> std::fmt::Debug for HashMap<K, V, S> {
+    fn fmt(&self, f: &mut std::fmt::Formatter<'_>) -> std::fmt::Result {
+        f.write_str("VMap")
+    }
+}
+impl<'a, K, V, S> IntoIterator for &'a HashMap<K, V, S> {
+    type Item = (&'a K, &'a V);
+    type IntoIter = Iter<'a, K, V>;
+    fn into_iter(self) -> Iter<'a, K, V> {
+        self.iter()
+    }
+}
 
-pub struct HashSet<T, S = ()> { slots: [Option<T>; CAP], len: usize, _s: PhantomData<S> }
-pub struct SetIter<'a, T> { m: &'a [Option<T>; CAP], i: usize, n: usize }
-impl<'a, T> Iterator for SetIter<'a, T> { type Item = &'a T; fn next(&mut self) -> Option<&'a T> { if self.i < self.n { let r = self.m[self.i].as_ref(); self.i += 1; r } else { None } } }
+pub struct HashSet<T, S = ()> {
+    slots: [MaybeUninit<T>; CAP],
+    len: usize,
+    _s: PhantomData<S>,
+}
+pub struct SetIter<'a, T> {
+    m: &'a [MaybeUninit<T>; CAP],
+    i: usize,
+    n: usize,
+}
+impl<'a, T> Iterator for SetIter<'a, T> {
+    type Item = &'a T;
+    fn next(&mut self) -> Option<&'a T> {
+        if self.i < self.n {
+            let r = unsafe { self.m[self.i].assume_init_ref() };
+            self.i += 1;
+            Some(r)
+        } else {
+            None
+        }
+    }
+}
 impl<T, S> HashSet<T, S> {
-    pub fn with_hasher(_s: S) -> Self { HashSet { slots: [None, None, None, None], len: 0, _s: PhantomData } }
-    pub fn len(&self) -> usize { self.len }
-    pub fn is_empty(&self) -> bool { self.len == 0 }
-    pub fn clear(&mut self) { while self.len > 0 { self.len -= 1; self.slots[self.len] = None; } }
-    pub fn iter(&self) -> SetIter<'_, T> { SetIter { m: &self.slots, i: 0, n: self.len } }
+    pub fn with_hasher(_s: S) -> Self {
+        HashSet { slots: [MaybeUninit::uninit(), MaybeUninit::uninit(), MaybeUninit::uninit(), MaybeUninit::uninit()], len: 0, _s: PhantomData }
+    }
+    pub fn len(&self) -> usize {
+        self.len
+    }
+    pub fn is_empty(&self) -> bool {
+        self.len == 0
+    }
+    pub fn clear(&mut self) {
+        while self.len > 0 {
+            self.len -= 1;
+            unsafe { self.slots[self.len].assume_init_drop() };
+        }
+    }
+    pub fn iter(&self) -> SetIter<'_, T> {
+        SetIter { m: &self.slots, i: 0, n: self.len }
+    }
+}
+impl<T, S> Drop for HashSet<T, S> {
+    fn drop(&mut self) {
+        self.clear();
+    }
 }
 impl<T: Eq, S> HashSet<T, S> {
-    fn pos<Q: ?Sized + Eq>(&self, k: &Q) -> Option<usize> where T: Borrow<Q> {
+    fn pos<Q: ?Sized + Eq>(&self, k: &Q) -> Option<usize>
+    where
+        T: Borrow<Q>,
+    {
         let mut i = 0;
-        while i < self.len { if let Some(t) = &self.slots[i] { if t.borrow() == k { return Some(i); } } i += 1; }
+        while i < self.len {
+            if unsafe { self.slots[i].assume_init_ref() }.borrow() == k {
+                return Some(i);
+            }
+            i += 1;
+        }
         None
     }
-    pub fn contains<Q: ?Sized + Eq>(&self, k: &Q) -> bool where T: Borrow<Q> { self.pos(k).is_some() }
-    pub fn insert(&mut self, t: T) -> bool { if self.pos(&t).is_some() { false } else { assert!(self.len < CAP, "VSet capacity bound exceeded"); self.slots[self.len] = Some(t); self.len += 1; true } }
-    pub fn remove<Q: ?Sized + Eq>(&mut self, k: &Q) -> bool where T: Borrow<Q> { match self.pos(k) { Some(i) => { self.len -= 1; let last = self.slots[self.len].take(); if i != self.len { self.slots[i] = last; } true } None => false } }
-    pub fn difference<'a>(&'a self, other: &'a HashSet<T, S>) -> Diff<'a, T, S> { Diff { it: self.iter(), other } }
+    pub fn contains<Q: ?Sized + Eq>(&self, k: &Q) -> bool
+    where
+        T: Borrow<Q>,
+    {
+        self.pos(k).is_some()
+    }
+    pub fn insert(&mut self, t: T) -> bool {
+        if self.pos(&t).is_some() {
+            false
+        } else {
+            assert!(self.len < CAP, "VSet capacity bound exceeded");
+            self.slots[self.len].write(t);
+            self.len += 1;
+            true
+        }
+    }
+    pub fn remove<Q: ?Sized + Eq>(&mut self, k: &Q) -> bool
+    where
+        T: Borrow<Q>,
+    {
+        match self.pos(k) {
+            Some(i) => {
+                self.len -= 1;
+                let last = self.len;
+                unsafe {
+                    self.slots[i].assume_init_drop();
+                    if i != last {
+                        let moved = self.slots[last].assume_init_read();
+                        self.slots[i].write(moved);
+                    }
+                }
+                true
+            }
+            None => false,
+        }
+    }
+    pub fn difference<'a>(&'a self, other: &'a HashSet<T, S>) -> Diff<'a, T, S> {
+        Diff { it: self.iter(), other }
+    }
 }
-pub struct Diff<'a, T, S> { it: SetIter<'a, T>, other: &'a HashSet<T, S> }
-impl<'a, T: Eq, S> Iterator for Diff<'a, T, S> { type Item = &'a T; fn next(&mut self) -> Option<&'a T> { loop { match self.it.next() { Some(t) => if !self.other.contains(t) { return Some(t); }, None => return None } } } }
-impl<T, S> std::fmt::Debug for HashSet<T, S> { fn fmt(&self, f: &mut std::fmt::Formatter<'_>) -> std::fmt::Result { f.write_str("VSet") } }
+pub struct Diff<'a, T, S> {
+    it: SetIter<'a, T>,
+    other: &'a HashSet<T, S>,
+}
+impl<'a, T: Eq, S> Iterator for Diff<'a, T, S> {
+    type Item = &'a T;
+    fn next(&mut self) -> Option<&'a T> {
+        loop {
+            match self.it.next() {
+                Some(t) => {
+                    if !self.other.contains(t) {
+                        return Some(t);
+                    }
+                }
+                None => return None,
+            }
+        }
+    }
+}
+impl<T, S> std::fmt::Debug for HashSet<T, S> {
+    fn fmt(&self, f: &mut std::fmt::Formatter<'_>) -> std::fmt::Result {
+        f.write_str("VSet")
+    }
+}
